@@ -236,10 +236,11 @@ class Run(RunBase):
         self.w = world
         self.W = World(world)
         self.n = self.W.nsites
+        self.companion = None                 # shared-supercell worlds: the decoy sampler, kept alive and driven too
         if self.W.shared is not None:
             # the system under test is constructed on a supercell object on which a different sampler was
             # constructed before; the fresh references come from a supercell object of their own
-            self.W.sampler(decoy=True)
+            self.companion = self.W.sampler(decoy=True)
             self.mc = self.W.sampler()
             self.tmpl = self.W.sampler(private=True)
             self.faults["sampler-built-on-shared-supercell"] += 1
@@ -368,6 +369,7 @@ class Run(RunBase):
         op = self.propose_inner(rng)
         if op is not None and op.get("op") in ("update", "trial") and self.prop != "C35":
             op["as"] = rng.choice(("list", "list", "tuple", "array", "set"))
+            op["call"] = rng.choice(("pos", "pos", "kw", "omit"))
         if op is not None and self.w.get("quiet") and rng.random() < self.w["quiet"]:
             # unobserved step: the oracles make no call on the system under test during or after this op, so
             # that stretches of the history contain exactly the calls a caller would make (an oracle that
@@ -394,6 +396,8 @@ class Run(RunBase):
             return {"op": "sweep"}
         if rng.random() < 0.03:
             return {"op": "checkpoint", "how": rng.choice(("pickle", "deepcopy"))}
+        if self.companion is not None and rng.random() < 0.08:
+            return {"op": "companion", "seed": rng.randrange(1 << 20)}
         if self.recent_trials and rng.random() < 0.07:
             # perform a move that was announced by a trial some steps ago (other updates may lie in between)
             a, b = rng.choice(self.recent_trials)
@@ -465,6 +469,8 @@ class Run(RunBase):
     def propose_c35(self, rng, occd, unoc):
         if self.jit is None:
             return {"op": "jit_create"}
+        if self.companion is not None and rng.random() < 0.05:
+            return {"op": "companion", "seed": rng.randrange(1 << 20)}
         x = rng.random()
         if x < 0.07:
             return self.gen_start(rng)
@@ -581,6 +587,17 @@ class Run(RunBase):
             return set(sites)
         return list(sites)
 
+    def _call(self, fn, how, a, b):
+        """The same call in the conventions a caller may use: positional, keywords (in either order), or
+        leaving out an empty trailing/leading list (both parameters default to ())."""
+        if how == "kw":
+            return fn(unoccsites=b, occsites=a)
+        if how == "omit" and len(b) == 0:
+            return fn(a)
+        if how == "omit" and len(a) == 0:
+            return fn(unoccsites=b)
+        return fn(a, b)
+
     def op_trial(self, index, op):
         a, b = self._sites(op["occ"]), self._sites(op["unocc"])
         if self.vacsite is not None and (self.vacsite in a or self.vacsite in b):
@@ -592,7 +609,7 @@ class Run(RunBase):
             return "rejected"
         if any(self.mocc[i] == 1 for i in a) or any(self.mocc[i] == 0 for i in b):
             self.faults["redundant-trial-entries"] += 1
-        d = self.mc.deltaE_trial(self._as(op.get("as"), a), self._as(op.get("as"), b))
+        d = self._call(self.mc.deltaE_trial, op.get("call"), self._as(op.get("as"), a), self._as(op.get("as"), b))
         self.probes["trial"] += 1
         self.recent_trials = (self.recent_trials + [(a, b)])[-4:]
         return "dE=" + fhex(d)
@@ -619,7 +636,9 @@ class Run(RunBase):
             self.probes["update-of-an-earlier-trial"] += 1
         E0 = None if self.quiet else mc.E()
         announced = mc.deltaE_trial(a, b) if (distinct and not self.quiet) else None
-        mc.update(self._as(op.get("as"), a), self._as(op.get("as"), b))
+        self._call(mc.update, op.get("call"), self._as(op.get("as"), a), self._as(op.get("as"), b))
+        if op.get("call") in ("kw", "omit"):
+            self.probes["call-convention-" + op["call"]] += 1
         if op.get("as") not in (None, "list"):
             self.probes["sites-as-" + op["as"]] += 1
         for i in a:
@@ -652,6 +671,30 @@ class Run(RunBase):
         if len(ij) < len(self.mc.jumps):
             self.probes["forbidden-transition"] += 1
         return "T{}:{}".format(len(ij), ",".join(fhex(q) for q in Q[:6]))
+
+    def op_companion(self, index, op):
+        """The caller drives a second live sampler (the decoy built on the same supercell object) in between:
+        two live objects of the class must not see each other."""
+        c = self.companion
+        if c is None:
+            return "skip"
+        rnd = random.Random(op.get("seed", 0))
+        vac = c.vacancy
+        if c.occ is None or rnd.random() < 0.3:
+            occ = np.array([rnd.choice((0, 1)) for _ in range(self.n)], dtype=int)
+            if vac >= 0:
+                occ[vac] = -1
+            c.start(occ)
+        else:
+            sites = [i for i in range(self.n) if i != vac]
+            a = [i for i in rnd.sample(sites, min(len(sites), 2)) if c.occ[i] == 0]
+            b = [i for i in rnd.sample(sites, min(len(sites), 2)) if c.occ[i] == 1 and i not in a]
+            c.deltaE_trial(a, b)
+            c.update(a, b)
+            if self.w["jumps"] or self.w.get("shared_sup") == "jumpnet":
+                c.transitions()
+        self.faults["companion-sampler-driven"] += 1
+        return "companion"
 
     def op_checkpoint(self, index, op):
         """Crash/restart: the sampler has no save/load of its own, so the only durable form of a running
